@@ -5,7 +5,8 @@
    joining task; only the statement about the ORDER of completion is restricted to members spawned running
    (a task that was finished when added has no completion instant inside the trace: it enters _done at
    the instant of the addition).
-   Proved here: the members consumed by join, those queued in _done and those whose _on_done
+   Proved here: the members the application took with next_done() before the join began, the members
+   consumed by join, those queued in _done and those whose _on_done
    callback is still in the loop's ready queue are - in this order, without repetition - exactly
    the non-daemon members in the order in which they finished; `completed` is the first consumed
    member that counts (under the object policy: that did not return None); what a finished
@@ -15,15 +16,19 @@
    cancellation - only under the none policy, or after a member that stops it (failed / cancelled;
    policy any; policy object and a member counts), or when nothing is pending and nothing is queued;
    and it never goes on consuming after a member that stops it.
+   The application's own next_done() calls are in the model as far as they do not have to wait: label
+   LAppNext, enabled before the joining task has run while a finished member is queued; what it takes does
+   not count for `completed`.
    NOT proved (tied to the code by the per-handle correspondence and checked on the real runs by
-   the harness oracle only): next_done called by the application between the iterations of join;
+   the harness oracle only): next_done called by the application while it would have to wait, or between
+   the iterations of join;
    the result / exception / results / exceptions properties (they read Task objects). *)
 From AV Require Import Base Gen_curio TaskGroup TaskGroupProofs TaskGroupOrder TaskGroupPolicy.
 
 (* every non-daemon member is yielded exactly once, in completion order *)
 Theorem C10_completion_order_exactly_once : forall p m ls, forallb fresh_label ls = true ->
   let g := run p m ls in
-  consumed g ++ doneq g ++ ondone_q (queue g) = log_done g /\ NoDup (log_done g) /\
+  app_consumed g ++ consumed g ++ doneq g ++ ondone_q (queue g) = log_done g /\ NoDup (log_done g) /\
   (forall t, In t (log_done g) <->
              exists mem, get t (members g) = Some mem /\ m_daemon mem = false /\ is_fin mem = true).
 Proof. intros p m ls H. destruct (reachable_ord p m ls H) as [O1 O2 O3 _]. auto. Qed.
@@ -32,8 +37,8 @@ Proof. intros p m ls H. destruct (reachable_ord p m ls H) as [O1 O2 O3 _]. auto.
    _on_done callback is still in the ready queue never repeat and are exactly the finished non-daemon members *)
 Theorem C10_exactly_once : forall p m ls,
   let g := run p m ls in
-  NoDup (consumed g ++ doneq g ++ ondone_q (queue g)) /\
-  (forall t, In t (consumed g ++ doneq g ++ ondone_q (queue g)) <->
+  NoDup (app_consumed g ++ consumed g ++ doneq g ++ ondone_q (queue g)) /\
+  (forall t, In t (app_consumed g ++ consumed g ++ doneq g ++ ondone_q (queue g)) <->
              exists mem, get t (members g) = Some mem /\ m_daemon mem = false /\ is_fin mem = true).
 Proof. intros p m ls. destruct (reachable_once p m ls) as [O1 O2 _]. split; [exact O1|exact O2]. Qed.
 
@@ -109,6 +114,14 @@ Example C10_ex_already_finished :
     [LSpawn 7 false (Some RetVal); LSpawn 8 true (Some RetVal); LSpawn 1 false None; LSpawn 9 false (Some Exc);
      LStart; LRun HJoiner []; LRun HJoiner [1]]%N in
   consumed g = [7; 9]%N /\ completed g = Some 7%N /\ status g 1%N = Some RunC /\ pc g = JCancelAll.
+Proof. vm_compute. repeat split. Qed.
+
+(* non-vacuity: the application takes the first finisher before the join; join reports the next one *)
+Example C10_ex_app_next :
+  let g := run PAny MJoin
+    [LSpawn 1 false None; LSpawn 2 false None; LFinish 2 RetVal; LRun (HCb (OnDone 2)) []; LAppNext; LAppNext;
+     LFinish 1 RetVal; LRun (HCb (OnDone 1)) []; LStart; LRun HJoiner []]%N in
+  app_consumed g = [2%N] /\ consumed g = [1%N] /\ completed g = Some 1%N /\ log_done g = [2; 1]%N.
 Proof. vm_compute. repeat split. Qed.
 
 Print Assumptions C10_completion_order_exactly_once.
